@@ -41,7 +41,8 @@ STUB = ['event loop + clock', 'TCP', 'executor', 'OS randomness',
 PROBES = ['rekeys_completed', 'simultaneous_kexinit', 'time_rekey',
           'data_deferred_during_kex', 'rekey_per_packet', 'many_epochs',
           'pop_closing', 'closed_during_kex', 'closed_outside_kex',
-          'link_cut_after_close', 'link_silent_after_close']
+          'link_cut_after_close', 'link_silent_after_close',
+          'receiver_paused_at_close']
 
 ALLOWED_DURING_KEX = {1, 2, 3, 4, 7, 21} | set(range(30, 50))
 
